@@ -14,6 +14,16 @@ import core
 from core import Fraction, frac, rat
 from translate import trajoptions
 
+MODELLED = ["evo/main_traj.py:run", "evo/main_traj.py:load_trajectories", "evo/main_traj.py:die", "evo/main_traj.py:to_filestem",
+            "evo/main_traj_parser.py:parser", "evo/tools/file_interface.py:load_transform",
+            "evo/tools/file_interface.py:load_transform_json", "evo/core/trajectory.py:PosePath3D.transform",
+            "evo/core/trajectory.py:PosePath3D.align", "evo/core/trajectory.py:PosePath3D.align_origin",
+            "evo/core/trajectory.py:PosePath3D.scale", "evo/core/trajectory.py:PosePath3D.downsample",
+            "evo/core/trajectory.py:PosePath3D.motion_filter", "evo/core/trajectory.py:PosePath3D.project",
+            "evo/core/trajectory.py:merge", "evo/core/lie_algebra.py:se3_inverse", "evo/core/lie_algebra.py:sim3_inverse",
+            "evo/core/lie_algebra.py:sim3_scale", "evo/core/lie_algebra.py:is_se3", "evo/core/lie_algebra.py:is_so3",
+            "evo/core/lie_algebra.py:is_sim3", "evo/core/lie_algebra.py:sim3"]
+
 RULE = ("cases = (subcommand tum/kitti/euroc, 1..3 trajectory files [+ reference file, possibly listed among the inputs], option "
         "set, transformation file npy/txt/json holding an SE(3) or Sim(3) matrix); evo.main_traj.run(parser().parse_args(argv)) is "
         "executed in-process in a scratch directory; (1) the plan returned by the Lean driver for the same option set is interpreted "
@@ -199,6 +209,13 @@ def gen_cases(ctx):
     c["tf"].update({"quat": [1.0, 0.0, 0.0, 0.0], "t": [0.0, 0.0, 0.0], "scale": 2.0})
     yield c
     yield build_case(r, dict(base, ref="file", t_offset=0.25, sync=True, t_max_diff=0.3))
+    # both transformation flags: one pose at the origin heading 90 deg about z, left file = translation (1,0,0), right file = identity
+    c = build_case(r, dict(base, tf_side="both", tf_form="json", tf_kind="se3", save="tum"))
+    c["trajs"] = [{"stamps": [0.0, 0.125], "pos": [[0.0, 0.0, 0.0], [0.0, 1.0, 0.0]],
+                   "quat": [[math.sqrt(0.5), 0.0, 0.0, math.sqrt(0.5)]] * 2}]
+    c["tf"] = {"side": "both", "form": "json", "quat": [1.0, 0.0, 0.0, 0.0], "t": [1.0, 0.0, 0.0], "scale": 1.0,
+               "other": {"quat": [1.0, 0.0, 0.0, 0.0], "t": [0.0, 0.0, 0.0], "scale": 1.0}}
+    yield c
     c = build_case(r, dict(base, ref="listed", downsample=5, plane="xy"))      # the only file is the reference
     c["trajs"] = []
     yield c
@@ -500,6 +517,13 @@ class Skip(Exception):
     pass
 
 
+class Expect(Exception):
+    """the documented pipeline ends in an error of evo's class `cls`; `strict`: evo must raise it (otherwise undecided)"""
+    def __init__(self, cls, why, strict=True):
+        super().__init__(why)
+        self.cls, self.why, self.strict = cls, why, strict
+
+
 def o_load(tr, sub):
     n = len(tr["pos"])
     T = []
@@ -534,7 +558,7 @@ def o_angle(Ra, Rb):
 
 def o_motion_filter(tr, dist, ang_deg):
     if tr["n"] < 2:
-        raise Skip("filter on < 2 poses")
+        raise Expect("FilterException", "motion filter on fewer than 2 poses")
     ang = math.radians(ang_deg)
     P = np.array([M[:3, 3] for M in tr["T"]])
     acc = np.concatenate([[0.0], np.cumsum(np.linalg.norm(P[1:] - P[:-1], axis=1))])
@@ -579,7 +603,7 @@ def o_associate(ref, tr, md):
             best[j] = (i, diffs[j])
     pairs = sorted((i, j) for j, (i, _) in best.items())
     if not pairs:
-        raise Skip("no matching stamps")
+        raise Expect("SyncException", "no matching stamps")
     si, lj = [p[0] for p in pairs], [p[1] for p in pairs]
     ri, ti = (lj, si) if swap else (si, lj)
     return o_select(ref, ri), o_select(tr, ti)
@@ -593,7 +617,7 @@ def o_umeyama(x, y, with_scale):
     cov = yc @ xc.T / n
     u, dvals, vt = np.linalg.svd(cov)
     if min(dvals[:2]) < 1e-9:
-        raise Skip("degenerate alignment")
+        raise Expect("GeometryException", "degenerate alignment", strict=False)
     S = np.eye(3)
     if np.linalg.det(u) * np.linalg.det(vt) < 0:
         S[2, 2] = -1
@@ -617,14 +641,14 @@ def o_normalise(tr):
 
 
 def o_align(tr, ref, correct_scale, only_scale, n):
-    if tr["n"] != ref["n"]:
-        raise Skip("alignment of different lengths")
     P = np.array([M[:3, 3] for M in tr["T"]]).T
     Q = np.array([M[:3, 3] for M in ref["T"]]).T
     if n != -1:
         P, Q = P[:, :n], Q[:, :n]
+    if P.shape != Q.shape:
+        raise Expect("GeometryException", "alignment of different lengths")
     if P.shape[1] < 3:
-        raise Skip("too few poses")
+        raise Expect("GeometryException", "fewer than 3 poses to align", strict=False)
     r, t, c = o_umeyama(P, Q, correct_scale or only_scale)
     T = []
     for X in tr["T"]:
@@ -656,6 +680,7 @@ def o_transform(tr, M, right, propagate, rigid):
 def oracle_pipeline(case):
     """{file stem: (stamps or None, positions)} | ('die', reason)"""
     sub = case["sub"]
+    both_alts = []
     trajs = {os.path.splitext(traj_name(sub, k))[0]: o_load(t, sub) for k, t in enumerate(case["trajs"])}
     ref = o_load(case["ref"], sub) if case["ref"] is not None else None
     if case["align"] and case["align_origin"]:
@@ -691,24 +716,40 @@ def oracle_pipeline(case):
                 trajs[k] = o_left(trajs[k], r_k["T"][0] @ np.linalg.inv(trajs[k]["T"][0]))
     tf = case["tf"]
     if tf:
-        M = tf_matrix(tf)                         # documented: the left file if given, else the right file
-        right = tf["side"] == "right"
+        # documented (help texts, the only documentation): the file of --transform_left is applied left-multiplicatively,
+        # the file of --transform_right right-multiplicatively.  With both flags every reading keeps that rule
+        # (both applied / the left one only / the right one only): the oracle returns all three candidates.
+        inv = (lambda X: np.linalg.inv(X)) if case["invert"] else (lambda X: X)
+        rigid = tf["scale"] == 1.0
         if tf["side"] == "both":
-            raise Skip("both --transform_left and --transform_right: outside the documented use")
-        if case["invert"]:
-            M = np.linalg.inv(M)
-        trajs = {k: o_transform(t, M, right, case["propagate"], tf["scale"] == 1.0) for k, t in trajs.items()}
-    if case["plane"]:
-        nd = PLANES[case["plane"]]
-        for t in list(trajs.values()) + ([ref] if ref else []):
-            for X in t["T"]:
-                X[nd, 3] = 0.0
+            L, R_ = inv(tf_matrix(tf)), inv(tf_matrix(tf["other"]))
+            alts = []
+            for use_l, use_r in ((True, True), (True, False), (False, True)):
+                cand = {}
+                for k, t in trajs.items():
+                    u = o_transform(t, L, False, False, rigid) if use_l else t
+                    cand[k] = o_transform(u, R_, True, case["propagate"], True) if use_r else u
+                alts.append(cand)
+            trajs = alts[0]
+            both_alts = alts[1:]
+        else:
+            M = inv(tf_matrix(tf))
+            trajs = {k: o_transform(t, M, tf["side"] == "right", case["propagate"], rigid) for k, t in trajs.items()}
     if case["save_tum"] and sub == "kitti":
         return ("die", "tum-without-stamps")
-    out = {k: t for k, t in trajs.items()}
-    if ref is not None:
-        out[os.path.splitext(ref_name(sub))[0]] = ref
-    return out
+    outs = []
+    for cand in [trajs] + both_alts:
+        if case["plane"]:
+            nd = PLANES[case["plane"]]
+            for t in list(cand.values()) + ([ref] if ref else []):
+                t["T"] = [X.copy() for X in t["T"]]
+                for X in t["T"]:
+                    X[nd, 3] = 0.0
+        out = {k: t for k, t in cand.items()}
+        if ref is not None:
+            out[os.path.splitext(ref_name(sub))[0]] = ref
+        outs.append(out)
+    return outs
 
 
 def parse_export(name, data):
@@ -718,26 +759,12 @@ def parse_export(name, data):
     return {"t": None, "p": [[r[3], r[7], r[11]] for r in rows], "R": [[r[0:3], r[4:7], r[8:11]] for r in rows]}
 
 
-def oracle(ctx, case, evo):
-    tags = {"sub": case["sub"]}
-    try:
-        want = oracle_pipeline(case)
-    except Skip as e:
-        ctx.count("dist", "oracle-skip:" + str(e))
-        ctx.skipped += 1
-        return None
-    if isinstance(want, tuple):
-        if evo["status"] == "ok" or evo["files"]:
-            ctx.fail(case, "refused-option-combination", f"documented as an error ({want[1]}) but evo_traj ran: {evo['status']}, files {sorted(evo['files'])}", tags)
-        return "die"
-    if evo["status"] != "ok":
-        ctx.fail(case, "runs-and-exports", f"evo_traj {evo['status']} {evo.get('message', '')} for a valid option set", tags)
-        return "ok"
+def compare_export(case, evo, want):
+    """first disagreement (clause, detail) between the exported files and one documented result, or None"""
     exts = ([".tum"] if case["save_tum"] else []) + ([".kitti"] if case["save_kitti"] else [])
     expected_files = sorted(stem + e for stem in want for e in exts)
     if sorted(evo["files"]) != expected_files:
-        ctx.fail(case, "exports-every-trajectory", f"files {sorted(evo['files'])}, expected {expected_files}", tags)
-        return "ok"
+        return ("exports-every-trajectory", f"files {sorted(evo['files'])}, expected {expected_files}")
     refstem = os.path.splitext(ref_name(case["sub"]))[0]
     no_processing = not (case["downsample"] or case["motion_filter"] is not None or case["merge"] or case["t_offset"] != 0.0 or
                          case["sync"] or case["align"] or case["correct_scale"] or case["align_origin"] or case["tf"] or case["plane"])
@@ -750,39 +777,68 @@ def oracle(ctx, case, evo):
         if no_processing:
             clause = "no-options-exported-equals-input"
         if len(got["p"]) != w["n"]:
-            ctx.fail(case, clause, f"{fname}: {len(got['p'])} poses exported, expected {w['n']}", tags)
-            continue
+            return (clause, f"{fname}: {len(got['p'])} poses exported, expected {w['n']}")
         P = np.array([M[:3, 3] for M in w["T"]])
         G = np.array(got["p"])
-        tol = 1e-6 * (1 + np.abs(P).max())
-        if no_processing:
-            tol = 0.0
+        tol = 0.0 if no_processing else 1e-6 * (1 + np.abs(P).max())
         if np.abs(G - P).max() > tol:
             k = int(np.argmax(np.abs(G - P).max(axis=1)))
-            ctx.fail(case, clause, f"{fname}: position {k} is {G[k].tolist()}, expected {P[k].tolist()}", tags)
-            continue
+            return (clause, f"{fname}: position {k} is {G[k].tolist()}, expected {P[k].tolist()}")
         if got["t"] is not None and w["t"] is not None:
             dt = np.abs(np.array(got["t"]) - w["t"]).max()
             if dt > (0.0 if no_processing else 1e-9 * (1 + abs(w["t"]).max())):
-                ctx.fail(case, clause, f"{fname}: timestamps differ by {dt}", tags)
-                continue
-        # orientations: valid, and equal to the documented result
+                return (clause, f"{fname}: timestamps differ by {dt}")
         for k in range(w["n"]):
             Rw = w["T"][k][:3, :3]
             if "R" in got:
                 Rg = np.array(got["R"][k])
                 if np.abs(Rg.T @ Rg - np.eye(3)).max() > 1e-6:
-                    ctx.fail(case, "poses-valid", f"{fname}: rotation block of pose {k} is not orthonormal", tags)
-                    break
+                    return ("poses-valid", f"{fname}: rotation block of pose {k} is not orthonormal")
             else:
                 x, y, z, qw = got["q"][k]
                 if abs(x * x + y * y + z * z + qw * qw - 1) > 1e-6:
-                    ctx.fail(case, "poses-valid", f"{fname}: quaternion of pose {k} is not a unit quaternion", tags)
-                    break
+                    return ("poses-valid", f"{fname}: quaternion of pose {k} is not a unit quaternion")
                 Rg = quat_to_rot(qw, x, y, z)
             if not case["plane"] and np.abs(Rg - Rw).max() > 1e-6:
-                ctx.fail(case, clause, f"{fname}: orientation of pose {k} differs from the documented pipeline", tags)
-                break
+                return (clause, f"{fname}: orientation of pose {k} differs from the documented pipeline")
+    return None
+
+
+def oracle(ctx, case, evo):
+    tags = {"sub": case["sub"]}
+    try:
+        want = oracle_pipeline(case)
+    except Skip as e:
+        ctx.count("dist", "oracle-skip:" + str(e))
+        ctx.skipped += 1
+        return None
+    except Expect as e:
+        # the documented pipeline ends in an error: evo must raise that error and export nothing
+        if evo["status"] == "raised " + e.cls and not evo["files"]:
+            ctx.count("dist", "oracle-error-agreed:" + e.why)
+            return "error"
+        if not e.strict and evo["status"] == "ok":
+            ctx.count("dist", "oracle-skip:" + e.why)
+            ctx.skipped += 1
+            return None
+        ctx.fail(case, "documented-error", f"{e.why}: expected {e.cls} and no export, evo_traj {evo['status']} files {sorted(evo['files'])}", tags)
+        return "error"
+    if isinstance(want, tuple):
+        if evo["status"] == "ok" or evo["files"]:
+            ctx.fail(case, "refused-option-combination", f"documented as an error ({want[1]}) but evo_traj ran: {evo['status']}, files {sorted(evo['files'])}", tags)
+        return "die"
+    if evo["status"] != "ok":
+        ctx.fail(case, "runs-and-exports", f"evo_traj {evo['status']} {evo.get('message', '')} for a valid option set", tags)
+        return "ok"
+    fails = [compare_export(case, evo, w) for w in want]
+    if all(f is not None for f in fails):
+        if len(want) > 1:
+            tags["tf_side"] = "both"
+            ctx.fail(case, "transform-file-side-as-documented",
+                     "--transform_left and --transform_right together: the export is neither (left file left-multiplied and right file "
+                     "right-multiplied) nor one of them alone applied on its documented side; vs both applied: " + fails[0][1], tags)
+        else:
+            ctx.fail(case, fails[0][0], fails[0][1], tags)
     return "ok"
 
 
@@ -907,6 +963,7 @@ def check(ctx):
     import warnings
     warnings.simplefilter("ignore")
     lean = core.lean_side(ctx.prop, ctx.tier, pre_build=trajoptions.regenerate)
+    core.drift(ctx, MODELLED)
     cases = list(gen_cases(ctx))
     evaluate(ctx, cases)
     core.shrink_all(ctx, shrink, evaluate, budget=40)
